@@ -63,6 +63,8 @@ pub struct HubInner {
     pub held: Vec<(u16, Vec<u8>)>,
     pub max_len: usize,
     pub sent: usize,
+    /// messages addressed to a validator that runs no node (the attacker): counted, not delivered
+    pub to_attacker: usize,
     /// consensus messages seen on the wire (decoded), per sender
     pub certs: Vec<(u64, usize, Cert)>,
     pub votes: Vec<(u64, usize, Vote)>,
@@ -87,6 +89,7 @@ impl Hub {
                 held: Vec::new(),
                 max_len: 0,
                 sent: 0,
+                to_attacker: 0,
                 certs: Vec::new(),
                 votes: Vec::new(),
                 record_consensus: true,
@@ -129,7 +132,12 @@ impl Hub {
             return;
         }
         let d = g.delay[from][to];
-        let Some(tx) = g.inboxes.get(&to_port).cloned() else { return };
+        let Some(tx) = g.inboxes.get(&to_port).cloned() else {
+            if chan_of(to_port) == CH_REQ {
+                g.to_attacker += 1;
+            }
+            return;
+        };
         drop(g);
         tokio::spawn(async move {
             tokio::time::sleep(d).await;
